@@ -84,6 +84,7 @@ pub fn make_handler(kind: HandlerKind, ext: &MemExt) -> Arc<dyn CommitHandler> {
         HandlerKind::External => Arc::new(ExternalManifestCommitHandler {
             external_manifest_store: Arc::new(ext.clone()),
         }),
+        HandlerKind::Lock => Arc::new(MemLock { ext: ext.clone() }),
     }
 }
 
@@ -294,6 +295,10 @@ impl Scenario for SeamScn {
     }
     fn deviations(&self, actor: usize, call: &Call) -> Vec<Answer> {
         let is_writer = actor < self.cfg.writers;
+        if matches!(call.verb, Verb::LockAcquire | Verb::LockRelease) {
+            // faults are injected on storage calls; a lost lock would be a defect of the lock, not of Lance
+            return vec![];
+        }
         if call.verb.mutating() {
             if is_writer {
                 self.cfg.writer_answers.clone()
@@ -312,7 +317,11 @@ impl Scenario for SeamScn {
         }
     }
     fn state_hash(&self, w: &SeamWorld) -> u64 {
-        w.t.shape_hash()
+        w.t.shape_hash() ^ if lock_free(&w.t.ext) { 0 } else { 0x5bd1e995 }
+    }
+    /// the lock waits for its holder: an acquire is enabled only while the lock is free
+    fn enabled(&self, w: &SeamWorld, _actor: usize, call: &Call) -> bool {
+        call.verb != Verb::LockAcquire || lock_free(&w.t.ext)
     }
     async fn monitor(&self, w: &SeamWorld, p: &PointRec) -> Vec<Violation> {
         let mut out = vec![];
